@@ -54,7 +54,15 @@ RULE = ('op sequences of length 1..4000 over all nine operation kinds (ec_encode
         'overflow it and the rest are length-driven; every sequence is legal (parameters in the documented domain). '
         'A case is one sequence (tie: every intermediate state compared; search: predicates P1..P4); classes counted as '
         'distinct: tie = (generator profile, encoder outcome ok/err) plus the tell_frac/ilog tables, search = (profile, '
-        'buffer-size class, outcome, length class) combinations actually observed')
+        'buffer-size class, outcome, length class) combinations actually observed. '
+        'SILK symbol layer (rangecoder-silkframe): one frame per case, generated in the encoder\'s domain — all three rates, 10/20 ms, LBRR '
+        'flag, all three condCoding values, previous signal type / lag, every signal type, gains / NLSF / LTP / contour indices with '
+        'boundary emphasis (0, max), NLSF residuals with extension symbols at both ends, lags near the previous lag (delta coding, both '
+        'edges -8 / +11) and absolute, pulses per 16-sample block from profiles (empty, sparse +-1, dense small, sums at the shell limits '
+        '8/10/12/16, isolated large values, full-range +-127), buffer sizes from too small (error path) to 1275. '
+        'SILK payloads (rangecoder-silkpacket): streams of 3..14 packets from the real silk_Encode on generated audio segments (silence, '
+        'noise, harmonic, chirp; stereo identical / scaled / independent / inverted channels), mono and stereo, NB/MB/WB, 10/20/40/60 ms, '
+        'bitrates 6..40 kb/s per channel, complexity 0..10, LBRR on in 70% of the streams; a case is one packet')
 NOT_COVERED = [
     'ec_enc_patch_initial_bits in the round-trip clause is proved (decode_encode_patched) and searched for patch-style '
     'streams only (first op ec_encode_bin(fl,fl+1,n) with 1<=n<=8, patches of the same n): a patch of bits that were not '
